@@ -16,7 +16,7 @@ BASE = "s0123456789.c"
 
 
 def near_misses():
-    repl = "sdxS09a.ch"
+    repl = "sdxS09a.ch+- \t_eE,'"          # incl. what number parsers skip or accept: signs, blanks, exponents, separators
     out = set()
     for p in range(13):
         for c in repl:
@@ -70,9 +70,13 @@ def main():
         out = rng.choice(["out.c", "out.c", "mod.c", "noext", "a.b.c", "s0000000000.c", "x.C"])
         pre = rng.sample(nm, rng.randint(0, 14)) + rng.sample(["s0000000000.c", "d0000000000.c", "s0000000001.c", "d0000000003.c", "s0000000007.c"], rng.randint(0, 4))
         form = rng.choice(["rel", "dotrel", "abs", "nested", "inputinside"])
+        clean = rng.random() < 0.6
+        if j * 12 < len(nm):
+            # every near-miss name is present in at least one run with the clean option
+            pre, clean = nm[j * 12:(j + 1) * 12] + pre[-2:], True
         scen.append({"pre": sorted(set(pre)), "form": form, "nref": nref,
                      "o": {"nfuncs": nfuncs, "perfile": perfile, "nstatic": nstatic, "ndynamic": ndyn, "external": external,
-                           "clean": rng.random() < 0.6, "out": out}})
+                           "clean": clean, "out": out}})
     wd = common.scratch("c20-")
     try:
         inf, outf = os.path.join(wd, "scen.ndjson"), os.path.join(wd, "pred.ndjson")
